@@ -139,9 +139,9 @@ fn ec_one(path: &[(autosar_data::ElementName, autosar_data_specification::Elemen
             }
             // try to create at a chosen position
             let (lo, hi) = match &range { Ok((a, b)) => (*a, *b), Err(_) => (0, kids.len()) };
-            let choices = [lo, hi, (lo + hi) / 2, lo.wrapping_sub(1), hi + 1];
+            // range ends, inside, one outside on either side, far outside, and the extreme values of usize
+            let choices = [lo, hi, (lo + hi) / 2, lo, hi, if lo > 0 { lo - 1 } else { hi + 1 }, hi + 1, kids.len() + 7, usize::MAX, usize::MAX - 1];
             let p = choices[rng.below(choices.len())];
-            let p = if p > kids.len() + 1 { 0 } else { p };
             let named = st.is_named_in_version(v);
             // the wrong kind of call is refused and changes nothing
             if rng.below(4) == 0 {
@@ -240,11 +240,13 @@ fn ec_one(path: &[(autosar_data::ElementName, autosar_data_specification::Elemen
             };
             let Some((val, val_ok)) = val else { continue };
             let before: Vec<(AttributeName, CharacterData)> = e.attributes().map(|a| (a.attrname, a.content)).collect();
-            let r = e.set_attribute(an, val.clone());
+            // the typed call and the string call, alternating
+            let use_string = rng.below(2) == 0;
+            let r = if use_string { e.set_attribute_string(an, &val.to_string()) } else { e.set_attribute(an, val.clone()) };
             stats[4] += 1;
             let expect = avail && val_ok;
             if r.is_ok() != expect {
-                return Err(format!("set_attribute({}, {:?}) on {} {} although the tables {} the attribute and {} the value for {:?}", an, val, e.element_name(), if r.is_ok() { "succeeds" } else { "fails" },
+                return Err(format!("{}({}, {:?}) on {} {} although the tables {} the attribute and {} the value for {:?}", if use_string { "set_attribute_string" } else { "set_attribute" }, an, val, e.element_name(), if r.is_ok() { "succeeds" } else { "fails" },
                                    if avail { "list" } else { "do not list" }, if val_ok { "list" } else { "do not list" }, v));
             }
             if r.is_err() {
@@ -259,9 +261,8 @@ fn ec_one(path: &[(autosar_data::ElementName, autosar_data_specification::Elemen
         let n = c.element_name();
         let range = cur.calc_element_insert_range(n, v);
         let (lo, hi) = match &range { Ok((a, b)) => (*a, *b), Err(_) => (0, kids_now.len()) };
-        let choices = [lo, hi, lo.wrapping_sub(1), hi + 1];
+        let choices = [lo, hi, if lo > 0 { lo - 1 } else { hi + 1 }, hi + 1, usize::MAX, usize::MAX - 1];
         let p = choices[rng.below(choices.len())];
-        let p = if p > kids_now.len() + 1 { 0 } else { p };
         let before: Vec<ElementName> = cur.sub_elements().map(|e| e.element_name()).collect();
         let r = cur.create_copied_sub_element_at(c, p);
         stats[2] += 1;
